@@ -181,6 +181,7 @@ def _any_default(name):
     class _C:
         """The base class defines no operator: the call never returns."""
         never_returns = True
+        dispatch = True  # call sites split on the receiver's class; every override carries its own contract
         raises = {"UndefinedOperatorError": lambda s: True}
 
     _C.__name__ = "_Any" + name
@@ -387,3 +388,243 @@ class _StrEqual:
     def post(s):
         # equality of the NFC-normalised texts
         return {"class": is_bool(s.result), "value": BOOL_EQ(bv(s.result), EQ(NFC(sv(s.self)), NFC(sv(s.right))))}
+
+
+# ------------------------------------------------------------------------------------------------ Set
+@class_spec(SET_X)
+class _SetSpec:
+    fields = dict(_element_type=X.ClassTagK, _value=X.RefSetK)
+
+    def invariant(self):
+        # established by Set.__init__: never empty, all elements of one class which is recorded as the element type
+        return {"non-empty": NOT(COLL_EMPTY(self._value)),
+                "homogeneous": COLL_ALL(self._value, lambda x: TAG(x) == ET(self))}
+
+
+inline_ok(SET_X + ".element_type", SET_X + ".__iter__", SET_X + "._elementwise",
+          SET_X + "._Decorator.homotypic_binary_operator", OPMOD + "_auto_swap",
+          why="trivial accessor / private helper / decorator factory of the expression layer: inlined")
+
+
+def TAG(x):
+    """the dynamic class of an object"""
+    if smt():
+        ref = x.ref if hasattr(x, "ref") else x
+        return speclib.CTX.engine.tag_fn(ref)
+    return type(x)
+
+
+def ET(s):
+    """the element class of a Set"""
+    t = AS(s, SET_X)._element_type
+    if smt():
+        return X.ClassTagK.unwrap(t) if not isinstance(t, z3.ExprRef) else t
+    return t
+
+
+def ET_IS(s, clsname):
+    """the element class of the set is exactly the named class"""
+    if smt():
+        return ET(s) == speclib.CTX.engine.class_id(speclib.CTX.engine.class_by_name(clsname))
+    return ET(s) is speclib._native_class(clsname)
+
+
+def _members(c):
+    """membership predicate of a collection of objects (Set object, frozenset, list / tuple)"""
+    from pyvc.values import Obj, SymSet, SymSeq, PyList
+
+    if isinstance(c, Obj):
+        c = AS(c, SET_X)._value
+    if isinstance(c, SymSet):
+        return lambda x: z3.Select(c.term, x)
+    if isinstance(c, SymSeq):
+        def mem(x):
+            i = z3.FreshConst(z3.IntSort(), "mi")
+            return z3.Exists([i], z3.And(0 <= i, i < c.length, z3.Select(c.arr, i) == x))
+
+        return mem
+    if isinstance(c, (PyList, tuple, list)):
+        items = c.items if isinstance(c, PyList) else list(c)
+        return lambda x: z3.Or(*[x == it.ref for it in items]) if items else z3.BoolVal(False)
+    raise X.EngineLimit("collection %r" % (c,))
+
+
+def _pats(*ts):
+    """explicit triggers when every term is a plain membership test (select on an array *name*); none otherwise"""
+    if all(z3.is_select(t) and not z3.is_quantifier(t.arg(0)) for t in ts):
+        return [z3.MultiPattern(*ts)] if len(ts) > 1 else [ts[0]]
+    return []
+
+
+def _native_members(c):
+    if hasattr(c, "_value") and isinstance(c._value, frozenset):
+        return c._value
+    return frozenset(c)
+
+
+def COLL_EMPTY(c):
+    if smt():
+        from pyvc.values import SymSeq, PyList
+
+        if isinstance(c, SymSeq):
+            return c.length == 0
+        if isinstance(c, (PyList, tuple, list)):
+            return len(c.items if isinstance(c, PyList) else c) == 0
+        x = z3.FreshConst(X.V.RefSort, "x")
+        m = _members(c)
+        return z3.ForAll([x], z3.Not(m(x)), patterns=_pats(m(x)))
+    return len(_native_members(c)) == 0
+
+
+def COLL_ALL(c, pred):
+    """every member satisfies pred"""
+    if smt():
+        from pyvc.values import SymSeq
+
+        if isinstance(c, SymSeq):
+            i = z3.FreshConst(z3.IntSort(), "ai")
+            el = z3.Select(c.arr, i)
+            return z3.ForAll([i], z3.Implies(z3.And(0 <= i, i < c.length), pred(el)), patterns=[el])
+        x = z3.FreshConst(X.V.RefSort, "x")
+        m = _members(c)
+        return z3.ForAll([x], z3.Implies(m(x), pred(x)), patterns=_pats(m(x)))
+    return all(pred(x) for x in _native_members(c))
+
+
+def COLL_HOMOGENEOUS(c):
+    """all members have the same class"""
+    if smt():
+        from pyvc.values import SymSeq
+
+        if isinstance(c, SymSeq):
+            return COLL_ALL(c, lambda x: TAG(x) == TAG(z3.Select(c.arr, 0)))
+        x = z3.FreshConst(X.V.RefSort, "x")
+        y = z3.FreshConst(X.V.RefSort, "y")
+        m = _members(c)
+        return z3.ForAll([x, y], z3.Implies(z3.And(m(x), m(y)), TAG(x) == TAG(y)), patterns=_pats(m(x), m(y)))
+    return len(set(map(type, _native_members(c)))) <= 1
+
+
+def COLL_SAME(a, b):
+    """the two collections have the same members"""
+    if smt():
+        x = z3.FreshConst(X.V.RefSort, "x")
+        ma, mb = _members(a), _members(b)
+        return z3.And(z3.ForAll([x], z3.Implies(ma(x), mb(x)), patterns=_pats(ma(x))),
+                      z3.ForAll([x], z3.Implies(mb(x), ma(x)), patterns=_pats(mb(x))))
+    return _native_members(a) == _native_members(b)
+
+
+def COLL_SUBSET(a, b):
+    if smt():
+        x = z3.FreshConst(X.V.RefSort, "x")
+        ma, mb = _members(a), _members(b)
+        return z3.ForAll([x], z3.Implies(ma(x), mb(x)), patterns=_pats(ma(x)))
+    return _native_members(a) <= _native_members(b)
+
+
+def COLL_IS(result, a, b, how):
+    """result = a `how` b  (union / intersection / symmetric difference), member-wise"""
+    if smt():
+        x = z3.FreshConst(X.V.RefSort, "x")
+        mr, ma, mb = _members(result), _members(a), _members(b)
+        comb = {"union": z3.Or, "intersection": z3.And, "symdiff": z3.Xor}[how](ma(x), mb(x))
+        return z3.And(z3.ForAll([x], z3.Implies(mr(x), comb), patterns=_pats(mr(x))),
+                      z3.ForAll([x], z3.Implies(comb, mr(x)), patterns=_pats(ma(x))),
+                      z3.ForAll([x], z3.Implies(comb, mr(x)), patterns=_pats(mb(x))))
+    r, a, b = _native_members(result), _native_members(a), _native_members(b)
+    return r == {"union": a | b, "intersection": a & b, "symdiff": a ^ b}[how]
+
+
+def COLL_DISJOINT(a, b):
+    if smt():
+        x = z3.FreshConst(X.V.RefSort, "x")
+        ma, mb = _members(a), _members(b)
+        return z3.ForAll([x], z3.Not(z3.And(ma(x), mb(x))), patterns=_pats(ma(x)))
+    return not (_native_members(a) & _native_members(b))
+
+
+def _coerce_elements(engine, ctx, args, kwargs):
+    """Set(...) is called with a tuple (literal), a frozenset (set algebra) or a generator expression (element-wise
+    application); at call sites all of them are viewed as the collection of their elements."""
+    from pyvc.values import PyList, MappedIter, Obj
+
+    el = args[1] if len(args) > 1 else kwargs.get("elements")
+    if isinstance(el, MappedIter) and el.fn is None:
+        el = X.refset_of_generator(engine, ctx, el)
+    elif isinstance(el, (tuple, PyList)):
+        items = list(el) if isinstance(el, tuple) else el.items
+        if not all(isinstance(x, Obj) for x in items):
+            raise X.EngineLimit("Set(...) of %r" % (items,))
+        t = z3.K(X.V.RefSort, z3.BoolVal(False))
+        for x in items:
+            t = z3.Store(t, x.ref, z3.BoolVal(True))
+        el = X.SymSet(t, X.V.RefSort, fresh=True)
+    if len(args) > 1:
+        args[1] = el
+    else:
+        kwargs["elements"] = el
+    return args, kwargs
+
+
+@contract(SET_X + ".__init__", props=P)
+class _SetInit:
+    """A set is built from a non-empty collection of values of one class; anything else is an invalid operand."""
+    instances = [{"elements": SeqOf(ObjOf(ANY))}, {"elements": X.RefSetK}]
+    coerce_args = staticmethod(_coerce_elements)
+    raises = {"InvalidOperandError": lambda s: OR(COLL_EMPTY(s.elements), NOT(COLL_HOMOGENEOUS(s.elements)))}
+
+    def post(s):
+        return {"members": COLL_SAME(s.self, s.elements),
+                "element-type": COLL_ALL(s.elements, lambda x: TAG(x) == ET(s.self))}
+
+
+SETR = ObjOf(SET_X, exact=True)
+
+
+def same_et(a, b):
+    return ET(a) == ET(b) if smt() else ET(a) is ET(b)
+
+
+def _set_compare(name, fn):
+    class _C:
+        params = dict(right=ObjOf(ANY))
+        returns = BOOLR
+        raises = {"UndefinedOperatorError": lambda s: NOT(is_set(s.right)),
+                  # defined only for sets that share the same element type
+                  "InvalidOperandError": lambda s: AND(is_set(s.right), lambda: NOT(same_et(s.self, s.right)))}
+
+        def post(s):
+            return {"class": is_bool(s.result), "value": BOOL_EQ(bv(s.result), fn(s.self, s.right))}
+
+    _C.__name__ = "_Set" + name
+    contract(SET_X + "." + name, props=P)(_C)
+
+
+_set_compare("_equal", lambda a, b: COLL_SAME(a, b))
+_set_compare("_less_or_equal", lambda a, b: COLL_SUBSET(a, b))
+_set_compare("_greater_or_equal", lambda a, b: COLL_SUBSET(b, a))
+_set_compare("_less", lambda a, b: AND(COLL_SUBSET(a, b), NOT(COLL_SAME(a, b))))
+_set_compare("_greater", lambda a, b: AND(COLL_SUBSET(b, a), NOT(COLL_SAME(a, b))))
+
+
+def _set_algebra(name, how, empty_result):
+    class _C:
+        params = dict(right=ObjOf(ANY))
+        returns = SETR
+        raises = {"UndefinedOperatorError": lambda s: NOT(is_set(s.right)),
+                  # ... and the result must not be empty (empty sets do not exist)
+                  "InvalidOperandError": lambda s: AND(is_set(s.right), lambda: OR(NOT(same_et(s.self, s.right)),
+                                                                                   empty_result(s.self, s.right)))}
+
+        def post(s):
+            return {"class": is_set(s.result), "members": COLL_IS(s.result, s.self, s.right, how),
+                    "element-type": same_et(s.result, s.self)}
+
+    _C.__name__ = "_Set" + name
+    contract(SET_X + "." + name, props=P)(_C)
+
+
+_set_algebra("_bitwise_or", "union", lambda a, b: False)
+_set_algebra("_bitwise_and", "intersection", lambda a, b: COLL_DISJOINT(a, b))
+_set_algebra("_bitwise_xor", "symdiff", lambda a, b: COLL_SAME(a, b))
